@@ -119,6 +119,7 @@ func boundTarget(f *ssa.Function) *ssa.Function {
 func markAnchor(f *ssa.Function) {
 	if f != nil {
 		ht.anchors[originFn(f)] = true
+		delete(ht.memo, originFn(f))
 	}
 }
 
